@@ -98,6 +98,10 @@ type FConn struct {
 	ReadLog    []int           // bytes delivered per Read call (when LogReads is set)
 	LogReads   bool
 	CutMid     bool // a scripted cut fired in the middle of a write
+
+	// EOFWithData: the read that hands over the last bytes of a stream the peer has ended reports the end with them
+	// (n > 0, io.EOF), as io.Reader allows and as a TLS 1.2 connection does when the close notification is already there
+	EOFWithData bool
 }
 
 type PipeOpts struct {
@@ -233,7 +237,11 @@ func (c *FConn) Read(b []byte) (int, error) {
 			if c.LogReads {
 				c.ReadLog = append(c.ReadLog, n)
 			}
+			glued := c.EOFWithData
 			c.smu.Unlock()
+			if glued && h.buf == nil && h.wclosed {
+				return n, io.EOF
+			}
 			return n, nil
 		}
 		if h.wclosed {
